@@ -9,4 +9,6 @@ mod tests;
 pub(crate) use send_blocks_proof::{verify_extra_hash, SendBlocksProofProcess};
 pub(crate) use send_last_state::SendLastStateProcess;
 pub(crate) use send_last_state_proof::{verify_mmr_proof, SendLastStateProofProcess};
+#[cfg(ckb_light_client_verif)]
+pub(crate) use send_last_state_proof::{verify_tau, verify_total_difficulty};
 pub(crate) use send_transactions_proof::SendTransactionsProofProcess;
